@@ -158,7 +158,8 @@ impl PartialEq for DynVal {
             (Rid(a), Rid(b)) => a == b,
             (Bearer(a), Bearer(b)) => a == b,
             (SafeLong(a), SafeLong(b)) => a == b,
-            (DoubleKey(a), DoubleKey(b)) => feq64(a.0, b.0),
+            // equal bit-wise up to NaN payloads AND by the key type's own Eq
+            (DoubleKey(a), DoubleKey(b)) => feq64(a.0, b.0) && a == b,
             (DateTime(a), DateTime(b)) => a == b,
             (Some(a), Some(b)) | (NewtypeStruct(a), NewtypeStruct(b)) | (ViaAny(a), ViaAny(b)) => a == b,
             (Seq(a), Seq(b)) | (Tuple(a), Tuple(b)) | (TupleStruct(a), TupleStruct(b)) => a == b,
